@@ -534,35 +534,59 @@ def seq_units(tier, mix):
 
 # =========================================================================== sub-space: flags
 def run_flag_unit(stats, uidx, flag, payload):
-    """A standard-speed block with this flag byte: TAP, TZX 0x10 and write_pzx must play the
-    pilot tone the ROM would save (8063 pulses if bit 7 of the flag is reset, else 3223)."""
+    """A standard-speed block with this flag byte.  Two separately tagged clauses:
+    pilot_count - each of TAP, TZX 0x10 and write_pzx plays the pilot tone the ROM would save
+                  (8063 pulses if bit 7 of the flag is reset, else 3223) and the reference pulses;
+    equiv       - the three formats give the same edges and data-block range."""
     from skoolkit import tape
     data = [flag] + payload
     want = tf.rom_pilot_count(flag)
-    for fmt, blocks in (('tap', tf.std_tap([data])), ('tzx', tf.std_t10([data])), ('pzx', None)):
+    results = {}
+    for ci, fmt in enumerate(('tap', 'tzx', 'pzx')):
         stats.evaluations += 1
         stats.transitions += 1
-        if blocks is None:
+        if fmt == 'pzx':
             fname = os.path.join(tools.workdir(), 'f.pzx')
             tape.write_pzx(fname, [data])
             fdata = tools.read_file(fname)
             blocks = tf.std_pzx([data])
         else:
+            blocks = tf.std_tap([data]) if fmt == 'tap' else tf.std_t10([data])
             fdata = tf.write_file(fmt, blocks)
         ref = Ref(fmt, blocks, 1, 0, (), True, 0, 0)
-        res = sk_play(fmt, fdata)
+        res = results[fmt] = sk_play(fmt, fdata)
         vio = compare_signal(fmt, ref, res)
         stats.counters['flag_bytes'] += 1
         if res[0] != 'error':
             stats.state(hash((len(res[0]), res[0][-1])))
         if vio:
-            got = None if res[0] == 'error' else res[1][0].start - 2 if res[1] else None
+            got = res[1][0].start - 2 if res[0] != 'error' and res[1] else None
             clause, detail = vio[0]
             stats.violation('flags/{}/flag={:02X},payload={}:{}'.format(fmt, flag, len(payload), clause),
                             {'space': 'flags', 'fmt': fmt, 'flag': flag, 'payload': payload},
                             'pilot tone of {} pulses, expected {} for flag byte 0x{:02X}; {}: {}'.format(got, want, flag, clause, detail),
                             tags={'space': 'flags', 'fmt': fmt, 'clause': 'pilot_count' if got != want else clause, 'flag': flag,
-                                  'features': ''}, order=uidx * 16384)
+                                  'features': ''}, order=uidx * 16384 + ci)
+    stats.evaluations += 1
+    stats.counters['flag_equiv'] += 1
+    for d in flag_equiv(results):
+        stats.violation('flags/equiv/flag={:02X},payload={}'.format(flag, len(payload)),
+                        {'space': 'flags', 'fmt': 'equiv', 'flag': flag, 'payload': payload}, d,
+                        tags={'space': 'flags', 'fmt': 'all', 'clause': 'equiv', 'flag': flag, 'features': ''}, order=uidx * 16384 + 3)
+
+
+def flag_equiv(results):
+    out = []
+    if any(r[0] == 'error' for r in results.values()):
+        return ['error: {}'.format({k: r[1] for k, r in results.items() if r[0] == 'error'})]
+    e0, d0 = results['tap']
+    for fmt in ('tzx', 'pzx'):
+        e, d = results[fmt]
+        if list(e) != list(e0):
+            out.append('{} gives {} edges ending at {}, TAP {} edges ending at {}'.format(fmt, len(e), e[-1], len(e0), e0[-1]))
+        elif [(x.start, x.end, bytes(x.data)) for x in d] != [(x.start, x.end, bytes(x.data)) for x in d0]:
+            out.append('{} data block {} differs from TAP {}'.format(fmt, [(x.start, x.end) for x in d], [(x.start, x.end) for x in d0]))
+    return out
 
 
 # =========================================================================== sub-space: roundtrip
@@ -791,8 +815,10 @@ def expected_events(sig):
 
 
 def _strip_trailing(ev):
-    ev = list(ev)
-    while ev and ev[-1][2] in ('Pause', 'Polarity adjustment'):
+    # 'Polarity adjustment' lines are bookkeeping (the same toggle may be attributed to a
+    # zero-length pulse or to an adjustment): the EAR column of the other lines carries the levels
+    ev = [e for e in ev if e[2] != 'Polarity adjustment']
+    while ev and ev[-1][2] == 'Pause':
         ev.pop()
     return ev
 
